@@ -24,9 +24,13 @@ out.append(read("notes/design9-intro.md"))
 
 out.append("\n### 9.3 Defects of the pinned tree and their disposition\n\n")
 out.append(read("notes/design9-defects-intro.md"))
-out.append("\n| property | fix commit | what failed on the pinned tree |\n|---|---|---|\n")
+# fix commits for defects already confirmed by probes in the design phase (section 5)
+PRE = set("33c110a 2bf5b47 903dd14 cdb781e d82945c b84ef16 f995cc7 d7a3cfa 7370f04 028ee78 1e6ee60 8a968a7 1f88a13 9c1a3ae b303969 d2a4b4d b3ad545 150a973".split())
+new_n = sum(1 for f in fixed if f["commit"] not in PRE)
+out.append("\n%d fix commits in total: %d repair defects of section 5, %d repair defects first found by the checks during the build (marked *new*).\n" % (len(fixed), len(fixed) - new_n, new_n))
+out.append("\n| property | fix commit | found | what failed on the pinned tree |\n|---|---|---|---|\n")
 for f in sorted(fixed, key=lambda f: (f["property"], f["commit"])):
-    out.append("| %s | `%s` | %s |\n" % (f["property"], f["commit"], f["what"].replace("|", "\\|")))
+    out.append("| %s | `%s` | %s | %s |\n" % (f["property"], f["commit"], "design-phase probe" if f["commit"] in PRE else "*new*: by the check", f["what"].replace("|", "\\|")))
 out.append("\nOpen known findings (recorded, not repaired; matched by bug-compatible second models, section 2.7):\n\n")
 for f in opens:
     out.append("* **%s** (%s): %s\n" % (f["id"], f["property"], f["what"]))
